@@ -80,6 +80,8 @@ func (o qOp) coq() string {
 		return CApp("QSyncIndep", CZ(o.ID))
 	case "restart":
 		return "QRestart"
+	case "touch":
+		return CApp("QTouch", CZ(o.ID))
 	}
 	panic(o.Kind)
 }
@@ -206,6 +208,18 @@ func (im *qImpl) apply(o qOp) qObs {
 	case "delete":
 		if rj := im.api.getJob(jobNameOf(o.ID)); rj != nil {
 			im.api.removeJob(rj.Name)
+		}
+	case "touch":
+		// the user deletes the Job while a finalizer holds it: deletionTimestamp set, nothing else
+		if rj := im.api.getJob(jobNameOf(o.ID)); rj != nil {
+			rj = rj.DeepCopy()
+			if rj.DeletionTimestamp == nil {
+				rj.DeletionTimestamp = mtp(ip(im.api.now()))
+			}
+			if len(rj.Finalizers) == 0 {
+				rj.Finalizers = []string{"execution.furiko.io/delete-dependents-finalizer"}
+			}
+			im.api.storeJob(rj, false)
 		}
 	case "setmax":
 		im.jc = im.jc.DeepCopy()
@@ -352,8 +366,16 @@ func runQueue(ctx *RunCtx) *Result {
 					m = pointer.Int64(Pick(c, []int64{1, 2, 3}))
 				}
 				do(qOp{Kind: "setmax", Max: m})
-			case r < 98:
+			case r < 97:
 				do(qOp{Kind: "fault", Fault: Pick(c, []string{"start", "start", "reject"})})
+			case r < 98:
+				if len(ids) > 0 {
+					do(qOp{Kind: "touch", ID: Pick(c, ids)})
+					if c.Chance(1, 2) {
+						settle()
+						do(qOp{Kind: "restart"})
+					}
+				}
 			default:
 				do(qOp{Kind: "restart"})
 			}
